@@ -107,7 +107,12 @@ func (env *SEnv) assumeWF(t Term, goT types.Type) {
 		}
 	}
 	if len(used) > 0 {
-		// inside a quantifier: well-formedness holds for every instance of the bound variables
+		// inside a quantifier: well-formedness holds for every instance of the bound variables.
+		// For interface-typed loads the invariant (any_ok) is a large case split that is rarely needed and makes
+		// instantiation expensive; it is only stated for concrete reference types (pointers, slices, maps, integers).
+		if _, isIface := goT.Underlying().(*types.Interface); isIface {
+			return
+		}
 		env.u.assume(True, Forall(used, inv, []Term{t}))
 	} else {
 		env.u.assume(True, inv)
